@@ -330,7 +330,6 @@ func NewMemRefStore() (ref.Store, *sql.DB, error) {
 	if err != nil {
 		return nil, nil, err
 	}
-	db.SetMaxOpenConns(1)
 	for _, stmt := range refsql.CreateTableStmts {
 		if _, err := db.Exec(stmt); err != nil {
 			db.Close()
